@@ -672,9 +672,9 @@ class CouplingAnalysisPurePython:
         (nNodes, ntime) = original.shape
 
         if (ntime % 2) == 0:
-            lenPhase = (ntime - 2) / 2
+            lenPhase = (ntime - 2) // 2
         else:
-            lenPhase = (ntime - 1) / 2
+            lenPhase = (ntime - 1) // 2
 
         #  Generate random phases uniformly distributed in the interval
         #  [0, 2*Pi]. Guarantee that the phases for positive and negative
